@@ -115,6 +115,33 @@ func VerifH_LocationLong() {
 	verifrt.Reach("C02.loc.long", len(q) > 190)
 }
 
+// VerifH_LocationLongTail (C01/C02a): a last line just around the 200-byte cut of
+// the quote whose final T bytes are arbitrary (binary, UTF-8 continuation bytes
+// included) and that ends with the file, no line break; symbolic position. Locating
+// never faults and the quote stays within 200 bytes.
+func VerifH_LocationLongTail() {
+	k := verifrt.Choice("k", 3) + 195 // concrete part 195..197 bytes
+	t := verifrt.Choice("t", verifrt.Bound("T")+1)
+	tail := verifrt.Bytes("tail", t)
+	content := make([]byte, 0, 260)
+	content = append(content, "ab\n"...)
+	for i := 0; i < k; i++ {
+		content = append(content, byte('a'+i%26))
+	}
+	for i := 0; i < t; i++ {
+		verifrt.Assume(tail[i] != '\n' && tail[i] != '\r')
+		content = append(content, tail[i])
+	}
+	pos := verifrt.Choice("pos", len(content)+1)
+	f := fs.NewFile("f.jst", content)
+	loc := NewLocation(f, bytes.Index(pos))
+	q := loc.Quote()
+	verifrt.Assert("C01.loc.long-tail-total", true)
+	verifrt.Assert("C02.loc.quote-cut", len(q) <= 200)
+	verifrt.Reach("C01.loc.long-tail", len(q) > 190)
+	verifrt.Reach("C02.loc.long-tail", len(q) > 190)
+}
+
 // VerifH_ErrorTrace (C02): OccurredInFile appends (file name, line of atByte).
 func VerifH_ErrorTrace() {
 	n := verifrt.Choice("n", verifrt.Bound("N")) + 1
